@@ -171,8 +171,14 @@ def history_machine(part_name, make_history, init_strategy, rules, stats, max_op
             def r(self, args):
                 self._do(dict(args, op=name))
             r.__name__ = "op_" + name
-            return precondition(lambda self: self.h is not None and len(self.ops) < max_ops)(rule(args=strat)(r))
+            limit = (lambda self: max_ops(self.init)) if callable(max_ops) else (lambda self: max_ops)
+            return precondition(lambda self: self.h is not None and len(self.ops) < limit(self))(rule(args=strat)(r))
         setattr(Machine, "op_" + name, make())
+    def idle(self):
+        """Keeps the machine alive once the history reached its drawn length (Hypothesis needs an enabled rule)."""
+
+    limit_all = (lambda self: max_ops(self.init)) if callable(max_ops) else (lambda self: max_ops)
+    Machine.idle = precondition(lambda self: self.h is not None and len(self.ops) >= limit_all(self))(rule()(idle))
     Machine.__name__ = "History_" + part_name.replace("-", "_")
     return Machine
 
